@@ -71,12 +71,18 @@ def step (d : Docs) : Note → Docs
 
 def run (h : List Note) : Docs := h.foldl step []
 
-/-- What the server receives for a client change: `go.lsp.dev/protocol` decodes
-    `TextDocumentContentChangeEvent.Range` into a non-pointer struct, so an absent range
-    arrives as the zero range. -/
+/-- What the server receives for a client change (`didChangeHandler` decodes the range as
+    optional). -/
 def wire : Change → Text.Change
-  | .full t => ⟨⟨0, 0, 0, 0⟩, t⟩
-  | .ranged r t => ⟨r, t⟩
+  | .full t => ⟨none, t⟩
+  | .ranged r t => ⟨some r, t⟩
+
+/-- The pinned wire path: `go.lsp.dev/protocol` decodes `TextDocumentContentChangeEvent.Range`
+    into a non-pointer struct, so an absent range arrived as the zero range and
+    `isFullChange` could not tell it from an insertion at 0:0. -/
+def wirePinned : Change → Text.Change
+  | .full t => Text.ofProtocol ⟨0, 0, 0, 0⟩ t
+  | .ranged r t => Text.ofProtocol r t
 
 def wireNote : Note → Text.Note
   | .didOpen u t => .didOpen u t
@@ -103,8 +109,8 @@ def rangeOK (s : Txt) (r : Range) : Bool :=
   posOK s r.sl r.sc && posOK s r.el r.ec &&
     decide (offset (enc16 s) r.sl r.sc ≤ offset (enc16 s) r.el r.ec)
 
-/-- The one change shape the server cannot tell from a range-less one
-    (known finding `insert-at-origin`): a ranged change whose range is 0:0-0:0. -/
+/-- The one change shape the PINNED server could not tell from a range-less one
+    (finding `insert-at-origin`, repaired): a ranged change whose range is 0:0-0:0. -/
 def originInsert : Change → Bool
   | .ranged r _ => isFullChange r
   | .full _ => false
@@ -116,7 +122,7 @@ def changeOK (s : Txt) : Change → Bool
 /-- The changes of one notification, each judged against the text it is applied to. -/
 def changesOK : Txt → List Change → Bool
   | _, [] => true
-  | s, c :: cs => changeOK s c && !originInsert c && changesOK (Text.applyOne true s (wire c)) cs
+  | s, c :: cs => changeOK s c && changesOK (Text.applyOne true s (wire c)) cs
 
 def noteOK (d : Text.Docs) : Note → Bool
   | .didChange u cs => match d.get u with
@@ -129,21 +135,5 @@ def noteOK (d : Text.Docs) : Note → Bool
 def histOK : Text.Docs → List Note → Bool
   | _, [] => true
   | d, n :: ns => noteOK d n && histOK (Text.step true d (wireNote n)) ns
-
-/-- Conforming, without the `originInsert` guard (used by the driver to tell the known
-    finding apart from a new violation). -/
-def changesConf : Txt → List Change → Bool
-  | _, [] => true
-  | s, c :: cs => changeOK s c && changesConf (Text.applyOne true s (wire c)) cs
-
-def noteConf (d : Text.Docs) : Note → Bool
-  | .didChange u cs => match d.get u with
-    | some t => changesConf t cs
-    | none => true
-  | _ => true
-
-def noteOrigin (d : Text.Docs) : Note → Bool
-  | .didChange u cs => (d.get u).isSome && cs.any originInsert
-  | _ => false
 
 end HL.Ref
